@@ -228,7 +228,7 @@ def run(ck):
     ck.rule('C13.R6 Ok returns of the extension walker', n6, 1)
     ck.rule('C13.R6 windows of the extension area read by the walker', holder.get('n', 0), 3)
     # ------------------------------------------------------------------ R8 chains of one, two and three extensions, exactly
-    bounded_chain_rules(ck)
+    bounded_chain_rules(ck)      # (also run by c06.run for encap_ext, on the same cached analyses)
     # ------------------------------------------------------------------ R7 bundled managers
     sm = ck.analyse('<header_extension::SimpleMandatoryExtensionHeaderManager as header_extension::MandatoryHeaderExtensionManager>::is_mandatory_header_id_known', {'kslots': 8})
     for w, rv in sm.rets:
@@ -271,7 +271,7 @@ def run(ck):
         trusted=['analysis/stdsum.py'])
 
 
-def bounded_chain_rules(ck, ns=(1, 2, 3)):
+def bounded_chain_rules(ck, ns=(1, 2, 3), pid='C13.R8', parts=('panic', 'tiling', 'layout')):
     """encap_ext re-analysed with the extension list pinned to n = 1, 2, 3 elements: both loops over the list unroll, every
     extension keeps a symbolic data length (a *measure* of the element: `Extension::len` is data length + 2 by R2, and a
     match on the data variant pins the measure to that variant's payload length), so that nothing has to be declined:
@@ -324,7 +324,7 @@ def bounded_chain_rules(ck, ns=(1, 2, 3)):
             w.mem[ev[1]] = ('seq', Lin.c(_n)) + tuple(v[2:])
         a = analyse_writer(ck, ENC + 'encap_ext', tag=f"c13-chain{n}", extra=dict(c09.ENCCFG, call_override={EXT + '::len': ext_len}, refine_hook=on_refine), premise=pin)
         seen = set()
-        for r in a.obligations():
+        for r in (a.obligations() if 'panic' in parts else ()):
             d = r.data
             ck.obligations += 1
             nob += 1
@@ -335,13 +335,15 @@ def bounded_chain_rules(ck, ns=(1, 2, 3)):
             if key in seen:
                 continue
             seen.add(key)
-            ck.finding('C13.R8', r.site[0], key, f"encap_ext with {n} extension(s): cannot show `{d['desc']}` ({d['okind']})" + (' [declined in the general analysis]' if d.get('declined') else ''), r.site,
+            ck.finding(pid, r.site[0], key, f"encap_ext with {n} extension(s): cannot show `{d['desc']}` ({d['okind']})" + (' [declined in the general analysis]' if d.get('declined') else ''), r.site,
                        {'needs': d.get('needs'), 'state': d.get('state')})
-        for r in a.events('write_overlap'):
-            ck.finding('C13.R8', ENC + 'encap_ext', f"chain{n}|overlap", f"encap_ext with {n} extension(s): a write is neither adjacent to nor disjoint from an earlier one", r.site)
+        for r in (a.events('write_overlap') if 'tiling' in parts else ()):
+            ck.finding(pid, ENC + 'encap_ext', f"chain{n}|overlap", f"encap_ext with {n} extension(s): a write is neither adjacent to nor disjoint from an earlier one", r.site)
         # layout of the extension area (ETSI TS 102 606, 4.2.3): [header][frag id, total length]? [id 0][label][data 0][id 1][data 1]..
         # [data n-1][protocol type unless the last extension is the final mandatory one][PDU]
         env, rows = writer_rows(ck, a, 'encap_ext')
+        if 'layout' not in parts:
+            rows = []
         ext_arg = a.arg('extensions')
         i_id = field_index(f, EXT, 'id')
         for row in rows:
@@ -355,7 +357,7 @@ def bounded_chain_rules(ck, ns=(1, 2, 3)):
                 at = ATOMS.by_key.get(('dl', ext_arg[1], (('i', Lin.c(k)),)))
                 dls.append(Lin.atom(at) if at is not None else None)
             if any(x is None for x in dls):
-                ck.finding('C13.R8', ENC + 'encap_ext', f"chain{n}|measure", f"encap_ext with {n} extension(s): the length of an extension is not taken through Extension::len")
+                ck.finding(pid, ENC + 'encap_ext', f"chain{n}|measure", f"encap_ext with {n} extension(s): the length of an extension is not taken through Extension::len")
                 break
 
             def before(k):
@@ -395,8 +397,8 @@ def bounded_chain_rules(ck, ns=(1, 2, 3)):
             if W.store.entails_eq(row['start'], want) and (wl is None or W.store.entails_eq(row['len'], wl)):
                 ck.discharged += 1
             else:
-                ck.finding('C13.R8', ENC + 'encap_ext', f"chain{n}|layout|{part[0]}|{what}", f"encap_ext with {n} extension(s) ({part[0]}, {part[1]}): {what} written at [{row['start'].pretty()}, +{row['len'].pretty()}), the standard places it at {want.pretty()}" + (f" with length {wl.pretty()}" if wl is not None else ''), row['site'])
-        for w, rv in a.rets:
+                ck.finding(pid, ENC + 'encap_ext', f"chain{n}|layout|{part[0]}|{what}", f"encap_ext with {n} extension(s) ({part[0]}, {part[1]}): {what} written at [{row['start'].pretty()}, +{row['len'].pretty()}), the standard places it at {want.pretty()}" + (f" with length {wl.pretty()}" if wl is not None else ''), row['site'])
+        for w, rv in (a.rets if 'tiling' in parts else ()):
             for v, fs in (ret_alts(rv) or []):
                 if v != 0:
                     continue
@@ -407,7 +409,7 @@ def bounded_chain_rules(ck, ns=(1, 2, 3)):
                 wr = ghost(w, 'writes')
                 ivs = [(x[1][0][1], x[1][1][1]) for x in wr[1]] if wr is not None and wr[0] == 'agg' else None
                 if rlen is None or ivs is None:
-                    ck.finding('C13.R8', ENC + 'encap_ext', f"chain{n}|shape", f"encap_ext with {n} extension(s): returned length or written intervals not recognisable")
+                    ck.finding(pid, ENC + 'encap_ext', f"chain{n}|shape", f"encap_ext with {n} extension(s): returned length or written intervals not recognisable")
                     continue
                 total = Lin.c(0)
                 ok = True
@@ -420,10 +422,13 @@ def bounded_chain_rules(ck, ns=(1, 2, 3)):
                 if ok and lo and w.store.entails_eq(total, rlen[1]):
                     ck.discharged += 1
                 else:
-                    ck.finding('C13.R8', ENC + 'encap_ext', f"chain{n}|extent", f"encap_ext with {n} extension(s): the bytes written ({' + '.join(f'[{a_.pretty()}, +{b_.pretty()})' for a_, b_ in ivs)}) are not exactly [0, returned length {rlen[1].pretty()})")
-    ck.rule('C13.R8 Ok returns of encap_ext with 1, 2, 3 extensions (bytes written = [0, returned length))', nret, 6)
-    ck.rule('C13.R8 obligations of encap_ext with 1, 2, 3 extensions (none declined)', nob, 300)
-    ck.rule('C13.R8 writes of the extension area placed (ids, data, protocol type, PDU; chains of 1, 2, 3)', nlay, 60)
+                    ck.finding(pid, ENC + 'encap_ext', f"chain{n}|extent", f"encap_ext with {n} extension(s): the bytes written ({' + '.join(f'[{a_.pretty()}, +{b_.pretty()})' for a_, b_ in ivs)}) are not exactly [0, returned length {rlen[1].pretty()})")
+    if 'tiling' in parts:
+        ck.rule(f'{pid} Ok returns of encap_ext with 1, 2, 3 extensions (bytes written = [0, returned length))', nret, 6)
+    if 'panic' in parts:
+        ck.rule(f'{pid} obligations of encap_ext with 1, 2, 3 extensions (none declined)', nob, 300)
+    if 'layout' in parts:
+        ck.rule(f'{pid} writes of the extension area placed (ids, data, protocol type, PDU; chains of 1, 2, 3)', nlay, 60)
 
 
 def size_may_match(w, idv, dlen):
